@@ -54,3 +54,12 @@ Example C08_example :
   let c2 := {| c_w := 5; c_pred := -(1 # 100); c_d1 := [0; 0]; c_d2 := [0; 0]; c_call := CallR; c_stop := false |} in
   nat_sum true (9 # 10) 2 0 0 [10; 5] [c1; c2] 3 = Some (13, 3, 13) /\ nat_sum true (9 # 10) 2 0 0 [10] [c1; c2] 3 = None.
 Proof. vm_compute. auto. Qed.
+
+(* the order clause for BOTH threshold modes: with the soft threshold the point prediction is a sum of fractional counts
+   (expit(T * margin)), but the bounds are still prediction -/+ weights . 0/1 losses / gains, so lower <= prediction <= upper for any
+   prediction whatsoever *)
+Theorem C08_order_any_threshold : forall (pred : Q) (ws losses gains : list Q),
+  Forall (fun w => 0 <= w) ws -> Forall (fun x => 0 <= x) losses -> Forall (fun x => 0 <= x) gains ->
+  pred - dot ws losses <= pred /\ pred <= pred + dot ws gains.
+Proof. exact order_any_threshold. Qed.
+Print Assumptions C08_order_any_threshold.
